@@ -212,7 +212,7 @@ func verifC16_AdminDelete() {
 func verifC17_MQTTCap() {
 	capacity := verifChoose("maxAllowedConnection", 2) + 1
 	b := vC16Broker(capacity)
-	ids := []string{"a", "b", "a"} // the third connection takes over id a
+	ids := []string{"a", "a", "b"} // the second connection takes over id a
 	n := verifBound("connections")
 	var conns [3]*vConn
 	for i := 0; i < n; i++ {
@@ -243,4 +243,45 @@ func verifC17_MQTTCap() {
 		}
 	}
 	verifAssert(accepted >= 1, "some-connection-accepted")
+	// Sockets end: those the broker closed (refused connections), and those of superseded
+	// clients (a takeover marks the old client disconnected; its socket ends at the next read
+	// failure). Their read loops tear down. Afterwards every id with an accepted connection
+	// must still be registered, with the connection that superseded the others - so that the
+	// cap keeps counting exactly the connected clients.
+	superseded := 0
+	for i := 0; i < n; i++ {
+		c := conns[i]
+		if c.closed {
+			close(c.drop)
+			continue
+		}
+		if c.connack == int(packets.Accepted) {
+			if reg := b.clients[ids[i]]; reg == nil || reg.conn != net.Conn(c) {
+				superseded++
+				close(c.drop)
+			}
+		}
+	}
+	verifQuiesce()
+	distinct := 0
+	for i := 0; i < n; i++ {
+		if conns[i].connack != int(packets.Accepted) {
+			continue
+		}
+		first := true
+		for j := 0; j < i; j++ {
+			if conns[j].connack == int(packets.Accepted) && ids[j] == ids[i] {
+				first = false
+			}
+		}
+		if first {
+			distinct++
+			reg := b.clients[ids[i]]
+			verifAssert(reg != nil && !reg.disconnected(), "an-id-with-an-accepted-connection-stays-registered")
+		}
+	}
+	verifAssert(len(b.clients) == distinct, "the-cap-counts-exactly-the-connected-clients")
+	if superseded > 0 {
+		verifCover("superseded-connection-torn-down")
+	}
 }
